@@ -76,6 +76,9 @@ class Auditor:
         self.il = inliner(ctx, config)
         self.t = T.Tables(self.f)
         self._inv = {}
+        self._varr = {}
+        self._pr = {}
+        self.reachset = None
 
     # ---------------------------------------------------------------- reachability
     def reach(self, entries):
@@ -303,8 +306,8 @@ class Auditor:
                 return (max(0, a[0] - b[1]), max(0, a[1] - b[0]))
             if op in ('Mul', 'MulUnchecked'):
                 return (a[0] * b[0], a[1] * b[1])
-            if op in ('Shr', 'ShrUnchecked') and b[0] == b[1]:
-                return (a[0] >> b[0], a[1] >> b[0])
+            if op in ('Shr', 'ShrUnchecked'):
+                return (a[0] >> min(b[1], 127), a[1] >> min(b[0], 127))
             if op in ('Shl', 'ShlUnchecked') and b[0] == b[1]:
                 return (a[0] << b[0], a[1] << b[0])
             if op in ('BitOr', 'BitXor'):
@@ -332,6 +335,9 @@ class Auditor:
             name = c.rsplit('::', 1)[-1]
             if c.startswith('core::num::<impl ') and name in ('count_ones', 'trailing_zeros', 'leading_zeros', 'count_zeros'):
                 return (0, 64)
+            if c.startswith('core::num::<impl ') and name.startswith('wrapping_'):
+                ty = c[len('core::num::<impl '):].split('>')[0]
+                return (0, TYMAX.get(ty, U64))
             if c.startswith('core::num::<impl ') and name in ('saturating_sub', 'wrapping_sub') and e[2]:
                 a = self.rng(e[2][0], s, blk, env, d)
                 if name == 'saturating_sub' and a:
@@ -348,11 +354,58 @@ class Auditor:
             return None
         if t == 'un' and e[1] == 'PtrMetadata':
             return (0, (1 << 63) - 1)
+        if t == 'var':
+            from ..expr import VAR_DEFS
+            if e in self._varr:
+                return self._varr[e]
+            self._varr[e] = None
+            dfn = VAR_DEFS.get(e)
+            r = self.rng(dfn, s, blk, (), d) if dfn is not None else None
+            self._varr[e] = r
+            return r
+        if t == 'param':
+            ty = s.body.locals[e[1]]['ty']
+            pr = self.param_range(s.body.key, e[1])
+            if pr:
+                return pr
+            if ty in TYMAX:
+                return (0, TYMAX[ty])
+            return None
         if t == 'loop':
             return self.loop_range(e, s, blk, d)
         if t == 'lenof':
             return (0, (1 << 63) - 1)
         return None
+
+    def param_range(self, fnkey, n):
+        """range of integer parameter n of fnkey over all call sites inside the audited call graph"""
+        k = (fnkey, n)
+        if k in self._pr:
+            return self._pr[k]
+        self._pr[k] = None
+        if self.reachset is None or '::{' in fnkey:
+            return None
+        lo, hi = None, None
+        found = False
+        for caller in self.reachset:
+            body = self.f.bodies.get(caller)
+            if body is None or not any(t.get('callee') == fnkey for _, t in body.calls()):
+                continue
+            cs = self.an.summary(caller)
+            for c in cs.calls_to(fnkey):
+                found = True
+                if n - 1 >= len(c['argvals']):
+                    return None
+                a = norm(self.il.inline(c['argvals'][n - 1]))
+                r = self.rng(a, cs, c['blk'], self.guard_env(cs, c['blk']))
+                if not r:
+                    return None
+                lo = r[0] if lo is None else min(lo, r[0])
+                hi = r[1] if hi is None else max(hi, r[1])
+        if not found:
+            return None
+        self._pr[k] = (lo, hi)
+        return (lo, hi)
 
     def cond_env(self, cond, val, allvals):
         """assumption contributed by taking case `val` of a switch on cond"""
@@ -756,6 +809,7 @@ def audit(ctx, R, entries, config='default'):
     for e in missing:
         ctx.inconclusive(R, 'entry point not found: ' + e)
     reach = aud.reach(entries)
+    aud.reachset = reach
     nsites = 0
     unknown = set()
     for k in sorted(reach):
